@@ -202,6 +202,7 @@ type RefreshToken struct {
 type refreshRequest struct {
 	t      *RefreshToken
 	scopes []string
+	live   bool // ext_c07.go: SetCurrentScopes also writes through to the stored grant
 }
 
 func (r *refreshRequest) GetAMR() []string            { return r.t.AMR }
@@ -210,7 +211,12 @@ func (r *refreshRequest) GetAuthTime() time.Time      { return r.t.AuthTime }
 func (r *refreshRequest) GetClientID() string         { return r.t.ClientID }
 func (r *refreshRequest) GetScopes() []string         { return r.scopes }
 func (r *refreshRequest) GetSubject() string          { return r.t.Subject }
-func (r *refreshRequest) SetCurrentScopes(s []string) { r.scopes = s }
+func (r *refreshRequest) SetCurrentScopes(s []string) {
+	r.scopes = s
+	if r.live { // ext_c07.go: false unless SetLiveRefreshGrants(true) was called
+		r.t.Scopes = s
+	}
+}
 
 type Device struct {
 	DeviceCode string
@@ -554,7 +560,7 @@ func (s *Store) TokenRequestByRefreshToken(ctx context.Context, refreshToken str
 	if !ok || t.Expiration.Before(time.Now()) {
 		return nil, op.ErrInvalidRefreshToken
 	}
-	return &refreshRequest{t: t, scopes: t.Scopes}, nil
+	return &refreshRequest{t: t, scopes: t.Scopes, live: s.extLiveRefresh()}, nil
 }
 
 func (s *Store) TerminateSession(ctx context.Context, userID, clientID string) error {
@@ -616,7 +622,9 @@ func (s *Store) SigningKey(ctx context.Context) (op.SigningKey, error) {
 	if err := s.enter(ctx, "SigningKey"); err != nil {
 		return nil, err
 	}
-	return s.Signing, nil
+	key := s.Signing
+	s.extAfterSigningKey() // ext_c06.go: no-op unless RotateAfterSigningKeyCalls armed it
+	return key, nil
 }
 
 func (s *Store) SignatureAlgorithms(ctx context.Context) ([]jose.SignatureAlgorithm, error) {
@@ -632,6 +640,9 @@ func (s *Store) SignatureAlgorithms(ctx context.Context) ([]jose.SignatureAlgori
 func (s *Store) KeySet(ctx context.Context) ([]op.Key, error) {
 	if err := s.enter(ctx, "KeySet"); err != nil {
 		return nil, err
+	}
+	if ks := s.extKeySet(); ks != nil { // ext_c06.go: nil unless SetKeySet was called
+		return ks, nil
 	}
 	keys := []op.Key{&PublicKey{KID: s.Signing.KID, Alg: s.Signing.Alg, UseStr: "sig", Pub: publicOf(s.Signing.Priv)}}
 	for _, k := range s.ExtraPub {
